@@ -151,6 +151,12 @@ class SpecRun:
                 raise Undecided(o.reason)
             if o.verdict == smt.PROVED:
                 continue
+            if code_state.extents:
+                # stores into an array the construct itself is building (allocated by it, no reference exists yet) are
+                # private; the finished array is compared element by element at exit
+                priv = z3.Or(*[z3.And(lo_ <= a, a + n <= hi_) for lo_, hi_ in code_state.extents])
+                if smt.prove(pre, priv).verdict == smt.PROVED:
+                    continue
             if k < len(spec) and spec[k][1] == n:
                 sa, sn, sv = spec[k]
                 m = 1 << (8 * n)
@@ -166,18 +172,16 @@ class SpecRun:
         if k != len(spec):
             raise Mismatch(f'{where}: the source semantics has stored {len(spec)} value(s) by now, the emitted code {k}')
 
-    def store(self, addr, n, v):
-        self.stores.append((addr, n, v))
-        for i in range(n):
-            self.mem = z3.Store(self.mem, addr + i, (v / (1 << (8 * i))) % 256)
+    def store(self, addr, n, v, private=False):
+        if not private:
+            self.stores.append((addr, n, v))
+        from hidv.sphinx import sem
+        self.mem = sem.as_mem(self.mem).store(addr, n, v)
 
     def load(self, mem, addr, n):
-        v = None
-        for i in range(n):
-            b = z3.Select(mem, addr + i)
-            self.ctx.facts += [b >= 0, b <= 255]
-            v = b if v is None else v + (1 << (8 * i)) * b
-        return v
+        from hidv.sphinx import sem
+        pre = self.pre()
+        return sem.load_word(self.ctx, mem, addr, n, lambda f: smt.prove(pre, f, timeout_ms=3000).verdict == smt.PROVED)
 
     def fault(self, kind):
         if self.unchecked:
@@ -333,3 +337,101 @@ class SpecRun:
         if isinstance(b, ast.PreemptBlock):
             return self.preempt_block(b)
         raise NotImplementedError(f'spec: block {type(b).__name__}')
+
+    # ---- arrays and strings (README "Types") ---------------------------------------------------------------------------------
+    def cload(self, addr, n):
+        return self.load(self.ctx.cmem, addr, n)
+
+    def array_of(self, e):
+        """value of an array-typed expression: where it lives and how long it is"""
+        if isinstance(e, ast.Volatile):
+            return self.array_of(e.expr)
+        if isinstance(e, ast.VariableLookup):
+            if e.var.name in self.newvars:
+                return self.newvars[e.var.name]
+            return self.L.array_value(self, e.var)
+        if isinstance(e, ast.StringToByteArray):
+            p = self.eval(e.expr)
+            return ArrayVal(DataType.BYTE, 'const', p + self.W, self.cload(p, self.W), writable=False)
+        if isinstance(e, ast.ArrayLiteral):
+            return self.array_literal(e)
+        if isinstance(e, ast.ArrayInitializer):
+            return self.L.array_initializer(self, e)
+        raise NotImplementedError(f'spec: array expression {type(e).__name__}')
+
+    def length_of(self, src):
+        if src.type == DataType.STRING:
+            p = self.eval(src)
+            return self.cload(p, self.W)
+        return self.array_of(src).length
+
+    def bounds(self, i, length):
+        si = isa.sx(i, self.M)
+        if not self.decide(z3.And(si >= 0, si < isa.sx(length, self.M))):
+            self.fault('out_of_bounds')
+
+    def element(self, arr, i, mem=None):
+        """(address, nbytes, value) of element i; for bool arrays the containing byte and the bit number"""
+        mem = self.ctx.cmem if arr.section == 'const' else (self.mem if mem is None else mem)
+        if arr.el_type == DataType.BOOL:
+            a = arr.origin + i / 8
+            byte = self.load(mem, a, 1)
+            k = i % 8
+            bit = z3.IntVal(0)
+            for j in range(7, -1, -1):
+                bit = z3.If(k == j, (byte / (1 << j)) % 2, bit)
+            return a, 1, bit, byte, k
+        n = 1 if arr.el_type.byte_sized else self.W
+        a = arr.origin + i * n
+        return a, n, self.load(mem, a, n), None, None
+
+    def array_lookup(self, e):
+        if e.source.type == DataType.STRING:
+            p = self.eval(e.source)
+            i = self.eval(e.index)
+            self.bounds(i, self.cload(p, self.W))
+            return self.cload(p + self.W + i, 1)
+        arr = self.array_of(e.source)
+        i = self.eval(e.index)
+        self.bounds(i, arr.length)
+        return self.element(arr, i)[2]
+
+    def array_assign(self, s):
+        """a[i] = e  /  a[i] op= e : array, index, bounds check, (old element), right-hand side, (operator), store"""
+        lk = s.lookup
+        arr = self.array_of(lk.source)
+        i = self.eval(lk.index)
+        self.bounds(i, arr.length)
+        if isinstance(s, ast.IncAssignment):
+            old = self.element(arr, i)[2]
+            r = self.eval(s.expr)
+            op = {ast.Add: 'add', ast.Sub: 'sub', ast.Mul: 'mul', ast.Div: 'div', ast.Mod: 'mod'}[s.bin_op]
+            if op in ('div', 'mod') and self.decide(r == 0):
+                self.fault('division_by_zero')
+            v = self.arith(op, old, r)
+        else:
+            v = self.eval(s.expr)
+        a, n, _, byte, k = self.element(arr, i)          # the element as it is *after* the right-hand side ran
+        if arr.el_type == DataType.BOOL:
+            new = z3.IntVal(0)
+            for j in range(7, -1, -1):
+                new = z3.If(k == j, byte - ((byte / (1 << j)) % 2) * (1 << j) + (v % 2) * (1 << j), new)
+            self.store(a, 1, new)
+        else:
+            self.store(a, n, v)
+
+    def array_literal(self, e):
+        """elements are evaluated left to right; the new array lives where the array stack ended"""
+        n = len(e.values)
+        el = e.type.el_type
+        base = self.L.alloc_base(self)
+        vals = [self.eval(x) for x in e.values]
+        if el == DataType.BOOL:
+            for j in range((n + 7) // 8):
+                byte = sum((vals[8 * j + t] % 2) * (1 << t) for t in range(8) if 8 * j + t < n)
+                self.store(base + j, 1, byte, private=True)
+        else:
+            size = 1 if el.byte_sized else self.W
+            for j, v in enumerate(vals):
+                self.store(base + j * size, size, v, private=True)
+        return ArrayVal(el, 'state', base, z3.IntVal(n))
